@@ -232,12 +232,13 @@ fn case_strategy() -> impl Strategy<Value = Case> {
         proptest::collection::vec(-3.0f64..3.0, 12),
         proptest::collection::vec(deriv(), 12 * 8),
         proptest::collection::vec(deriv(), 12),
-        (any::<u8>(), any::<bool>(), prop::bool::weighted(0.3), prop::sample::select(vec![0u8, 0, 1, 1, 2])),
+        (any::<u8>(), any::<bool>(), prop::bool::weighted(0.3), prop::sample::select(vec![0u8, 0, 1, 1, 2]), prop::bool::weighted(0.15)),
     )
-        .prop_map(|(mode, n, extra, l, u, d, pseed, xrows, b, da, db, (perm_rot, perm_rev, identity_l, layout))| {
+        .prop_map(|(mode, n, extra, l, u, d, pseed, xrows, b, da, db, (perm_rot, perm_rev, identity_l, layout, square_lsq))| {
             let cols = if extra > 0 { n.min(6) } else { n };
             let rows = cols + extra;
-            let lsq = extra > 0;
+            // least squares is also allowed (and then used) on a square system
+            let lsq = extra > 0 || square_lsq;
             // square block = L * U with a healthy diagonal; L = I gives the sparse triangular kind
             let mut sq = vec![vec![0.0; cols]; cols];
             for i in 0..cols {
@@ -486,6 +487,7 @@ impl Property for C13 {
         v.label(MODES[(c.mode % 8) as usize]);
         v.label(["layout:row-major", "layout:column-major", "layout:strided"][(c.layout % 3) as usize]);
         v.label_if(c.lsq, "least-squares");
+        v.label_if(c.lsq && c.rows == c.cols, "least-squares:square-system");
         let d = c.dense();
         // the square system actually solved: A itself or the normal equations
         let (m0, m1, m2, c0, c1, c2): (M, [M; 3], [[M; 3]; 3], Vec<f64>, [Vec<f64>; 3], [[Vec<f64>; 3]; 3]) = if c.lsq {
@@ -630,7 +632,7 @@ impl Property for C13 {
     }
 
     fn rule(&self) -> String {
-        "random systems: square 1-8 and tall up to 14x6 (least squares), real parts built as (unit lower, or identity) x (sparse upper with |diagonal| in [0.5,2]) with the rows shuffled so that zeros land on the diagonal and partial pivoting must swap (also in later columns); A and b are handed over as row-major, column-major (transposed view, as numpy's A.T arrives) or strided views; entries lifted to derivative content over 3 names with differing variable orders; element types dsolve::<f64|Dual|Dual2|Number> (Number mixes floats with one dual kind in A and b) and fdsolve with b of f64|Dual|Dual2. Oracle: the returned x, read by name, must satisfy A0 x0 = b0, A0 x_k + A_k x0 = b_k and A_kl x0 + A_k x_l + A_l x_k + A0 x_kl = b_kl (for least squares the same identities for A^T A x = A^T b) with residuals <= 1e-9 x cond x sum of absolute terms; solving the row-permuted system gives the same x. Draws with cond >= 1e6 are skipped and counted. Non-trivial: n >= 2, a row swap is needed, and a non-zero derivative is present.".into()
+        "random systems: square 1-8 (least squares allowed on 15% of them) and tall up to 14x6 (least squares), real parts built as (unit lower, or identity) x (sparse upper with |diagonal| in [0.5,2]) with the rows shuffled so that zeros land on the diagonal and partial pivoting must swap (also in later columns); A and b are handed over as row-major, column-major (transposed view, as numpy's A.T arrives) or strided views; entries lifted to derivative content over 3 names with differing variable orders; element types dsolve::<f64|Dual|Dual2|Number> (Number mixes floats with one dual kind in A and b) and fdsolve with b of f64|Dual|Dual2. Oracle: the returned x, read by name, must satisfy A0 x0 = b0, A0 x_k + A_k x0 = b_k and A_kl x0 + A_k x_l + A_l x_k + A0 x_kl = b_kl (for least squares the same identities for A^T A x = A^T b) with residuals <= 1e-9 x cond x sum of absolute terms; solving the row-permuted system gives the same x. Draws with cond >= 1e6 are skipped and counted. Non-trivial: n >= 2, a row swap is needed, and a non-zero derivative is present.".into()
     }
 
     fn floors(&self, tier: Tier) -> Vec<Floor> {
@@ -640,6 +642,7 @@ impl Property for C13 {
             Floor { label: "pivot:swap-in-column>=2", min: n / 10 },
             Floor { label: "pivot:zero-on-diagonal", min: n / 10 },
             Floor { label: "least-squares", min: n / 10 },
+            Floor { label: "least-squares:square-system", min: n / 20 },
             Floor { label: "row-permutation:checked", min: n / 3 },
             Floor { label: "layout:column-major", min: n / 5 },
             Floor { label: "layout:strided", min: n / 10 },
